@@ -10,14 +10,23 @@ if [ ! -d "$WT" ]; then git -C /repo worktree add --detach "$WT" "$HEAD" >/dev/n
 git -C "$WT" checkout -q --detach "$HEAD" && git -C "$WT" checkout -q -- . && git -C "$WT" clean -qfd
 cp "$D/demo.py" "$WT/_demo.py"
 ( cd "$WT" && timeout 300 /venv/bin/python _demo.py >/dev/null 2>&1 ); clean_rc=$?
-git -C "$WT" apply "$D/patch.diff" || { echo "RESULT patch does not apply"; exit 3; }
+APPLIED_ON=HEAD
+if ! git -C "$WT" apply "$D/patch.diff" 2>/dev/null; then
+  if git -C "$WT" apply --3way "$D/patch.diff" >/dev/null 2>&1; then APPLIED_ON="HEAD(3way)"; git -C "$WT" reset -q; else
+    # the patch was written against an older /repo commit and conflicts with a later fix: evaluate it on its own base commit
+    BASE=$(python3 -c "import json,sys; print(json.load(open(sys.argv[1])).get('base_commit',''))" "$D/meta.json" 2>/dev/null)
+    git -C "$WT" reset -q --hard; git -C "$WT" checkout -q -- .
+    [ -n "$BASE" ] && git -C "$WT" checkout -q --detach "$BASE" && git -C "$WT" apply "$D/patch.diff" || { echo "RESULT patch does not apply"; exit 3; }
+    APPLIED_ON="base:$BASE"; cp "$D/demo.py" "$WT/_demo.py"
+  fi
+fi
 tests=$( cd "$WT" && /venv/bin/python -m pytest -q -p no:cacheprovider 2>&1 | tail -1 )
 ( cd "$WT" && timeout 300 /venv/bin/python _demo.py >/dev/null 2>&1 ); mut_rc=$?
-echo "RESULT demo_clean_rc=$clean_rc demo_mutant_rc=$mut_rc tests: $tests"
+echo "RESULT demo_clean_rc=$clean_rc demo_mutant_rc=$mut_rc tests: $tests applied_on=$APPLIED_ON"
 props=${@:-C01 C02 C03 C04 C05 C06 C07 C08 C09 C10 C11 C12 C13 C14 C15 C16 C17 C18 C19 C20}
 cd "$(dirname "$0")/.."
 for p in $props; do
   out=$(VERIF_STOP_ON_FIRST=${SEEDSTOP:-1} VERIF_REPO=$WT VERIF_EVIDENCE_DIR=/tmp/seed_evidence VERIF_REPLAY_DIR=/tmp/seed_replays ./run $p --tier ${SEEDTIER:-quick} 2>&1); rc=$?
   echo "CHECK $p rc=$rc $(echo "$out" | grep -m3 'violation:' | tr '\n' ';')"
 done
-rm -f "$WT/_demo.py"; git -C "$WT" checkout -q -- . ; git -C "$WT" clean -qfd
+rm -f "$WT/_demo.py"; git -C "$WT" reset -q --hard; git -C "$WT" checkout -q -- . ; git -C "$WT" clean -qfd
